@@ -117,6 +117,9 @@ def _model_values(z3, e, m):
         mv = m.eval(v, model_completion=True)
         if kind == "b":
             out[name] = bool(z3.is_true(mv))
+        elif kind == "fp":
+            from . import fp as _fp
+            out[name] = _fp.model_value(mv)
         else:
             n = T._numeral(mv)
             if n is None:
